@@ -9,10 +9,12 @@ want = set(base["stable_pass"])
 out = tempfile.mkdtemp(prefix="baseline_")
 junit = os.path.join(out, "junit.xml")
 env = dict(os.environ); env.pop("POREPY_VERIF", None)
+REPO = os.environ.get("VERIF_REPO", "/repo")  # development: test a scratch worktree (seeded changes)
+if REPO != "/repo": env["PYTHONPATH"] = os.path.join(REPO, "src")
 cmd = ["/venv/bin/python", "-m", "pytest", "-q", "-p", "no:cacheprovider", "--timeout=900",
        "--continue-on-collection-errors", "--junitxml=" + junit]
 if n != "0": cmd += ["-n", n]
-r = subprocess.run(cmd, cwd="/repo", env=env, stdout=subprocess.PIPE, stderr=subprocess.STDOUT, text=True)
+r = subprocess.run(cmd, cwd=REPO, env=env, stdout=subprocess.PIPE, stderr=subprocess.STDOUT, text=True)
 print(r.stdout[-1500:])
 passed = set()
 for tc in ET.parse(junit).getroot().iter("testcase"):
@@ -24,13 +26,13 @@ if missing and n != "0":
     files = set()
     for m in missing:
         parts = m.split("::")[0].split(".")
-        while parts and not os.path.exists(os.path.join("/repo", *parts) + ".py"):
+        while parts and not os.path.exists(os.path.join(REPO, *parts) + ".py"):
             parts = parts[:-1]
         if parts: files.add(os.path.join(*parts) + ".py")
     junit2 = os.path.join(out, "junit2.xml")
     r = subprocess.run(cmd[:-1] + ["--junitxml=" + junit2] + sorted(files) if n == "0" else
                        [c for c in cmd if not c.startswith("--junitxml")] + ["--junitxml=" + junit2, "-n", "0"] + sorted(files),
-                       cwd="/repo", env=env, stdout=subprocess.PIPE, stderr=subprocess.STDOUT, text=True)
+                       cwd=REPO, env=env, stdout=subprocess.PIPE, stderr=subprocess.STDOUT, text=True)
     print("serial rerun of", sorted(files)); print(r.stdout[-600:])
     for tc in ET.parse(junit2).getroot().iter("testcase"):
         if not any(ch.tag in ("failure", "error", "skipped") for ch in tc):
